@@ -339,6 +339,46 @@ void harness_send_frame(void)
 	}
 	WITNESS_END();
 }
+/* C19 / C10 - a data frame sent with permessage-deflate accepted: deflate is a contract stub (consumes <= avail_in,
+ * produces <= avail_out, writes what fits; any return code). Whatever it does, exactly one complete frame is written:
+ * either compressed (RSV1, payload inside the 2*len output buffer) or - when the compressed form is not available -
+ * the original payload uncompressed (RFC 7692 6: every message MAY be sent uncompressed). */
+int deflate(z_streamp strm, int flush)
+{
+	(void)flush;
+	unsigned in = nd_uint(), out = nd_uint();
+	__CPROVER_assume(in <= strm->avail_in && out <= strm->avail_out);
+	for (unsigned i = 0; i < 8; i++) if (i < out) strm->next_out[i] = nd_u8();
+	strm->next_in += in; strm->avail_in -= in; strm->next_out += out; strm->avail_out -= out;
+	return (int)nd_range(-5, 1);
+}
+int deflateEnd(z_streamp strm) { (void)strm; return 0; }
+int deflateReset(z_streamp strm) { (void)strm; return 0; }
+void harness_send_frame_compressed(void)
+{
+	mk_ws(1);
+	static z_stream defl; static z_stream *dp = &defl;
+	WS.extension_compression.accepted = true;
+	WS.extension_compression.compression_level = 2;
+	WS.extension_compression.strm_comp = &dp;
+	size_t len = nd_size(); __CPROVER_assume(len >= 1 && len <= 4);
+	uint8_t *msg = malloc(len);
+	__CPROVER_assume(msg != 0);
+	unsigned type = nd_bool() ? 1 : 2;
+	int r = send_frame(&WS, msg, len, type);
+	CHECK(r == 0 && nwf == 1, "C10.one_frame_one_write");
+	CHECK((WF[0].b0 & 0x8f) == (0x80 | type) && (WF[0].b0 & 0x30) == 0 && (WF[0].b1 & 0x80) == 0, "C12.server_frame_fin_set_rsv_clear_opcode");
+	CHECK(WF[0].hdr_len == 2 && WF[0].b1 == WF[0].pay_len, "C12.length_minimally_encoded");
+	if (WF[0].b0 & 0x40) {
+		CHECK(WF[0].pay != msg && WF[0].pay_len + 4 <= 2 * len, "C19.compressed_payload_lies_inside_its_buffer");
+		REACH("sent_compressed");
+	} else {
+		CHECK(WF[0].pay == msg && WF[0].pay_len == len, "C19.message_without_compressed_form_is_sent_unchanged_and_uncompressed");
+		REACH("sent_uncompressed");
+	}
+	free(msg);
+	WITNESS_END();
+}
 void harness_close_frame(void)
 {
 	mk_ws(1);
